@@ -263,6 +263,10 @@ func (c *Ctx) Close() {
 func Try(f func() string) (res string) {
 	defer func() {
 		if r := recover(); r != nil {
+			if s, ok := r.(string); ok && s == "bad-op" {
+				res = "bad-op" // the command's own "cannot parse this op" signal
+				return
+			}
 			res = "panic " + PanicClass(r)
 		}
 	}()
